@@ -42,7 +42,7 @@ def cases(rng, tier):
             mid = {"revoke": {"op": "revoke", "auth": A1, "token": "at1", "hint": None}, "expire": {"op": "advance", "dt": 900000},
                    "refresh": {"op": "refresh", "auth": A1, "token": "rt2", "scope": None}, "nothing": {"op": "advance", "dt": 1}}[end]
             out.append({"cfg": dict(H.World().cfg), "ops": [{"op": "issue_password", "auth": A1, "user": 1, "scope": "a b"}, use, dict(use), mid, dict(use), dict(use, required=None)]})
-    out += jwt9068_cases() + django_rev_cases()
+    out += jwt9068_cases() + django_rev_cases() + flask_optional_cases()
     for scope in (None, "a", "b a", "a z", "c"):
         ops = [{"op": "issue_password", "auth": A1, "user": 2, "scope": "a b"}, {"op": "refresh", "auth": A1, "token": "rt2", "scope": scope},
                {"op": "refresh", "auth": A1, "token": "rt2", "scope": None}, {"op": "access", "token": "at1", "required": ["a"]},
@@ -58,6 +58,9 @@ def django_rev_cases():
     for ref in ("access", "refresh", "unknown", "other-clients-access"):
         for hint in (None, "access_token", "refresh_token", "bogus", ""):
             out.append({"op": "django_revocation", "ref": ref, "hint": hint})
+    # … and a requester that names the owner by client_id only (no secret): the endpoint's shipped method list is HTTP Basic, so nobody is authenticated
+    for ref in ("access", "refresh"):
+        out.append({"op": "django_revocation", "ref": ref, "hint": None, "cred": "bare-client-id"})
     return out
 
 
@@ -98,8 +101,45 @@ def impl_django_revocation(c):
     form = {"token": tok}
     if c["hint"] is not None:
         form["token_type_hint"] = c["hint"]
-    r = ms.fw_call(srv, Req("POST", "https://as.example/revoke", form, ms.basic("c1", "s1")), "create_endpoint_response", "revocation")
+    hdr = ms.basic("c1", "s1")
+    if c.get("cred") == "bare-client-id":
+        hdr, form = {}, dict(form, client_id="c1")
+    r = ms.fw_call(srv, Req("POST", "https://as.example/revoke", form, hdr), "create_endpoint_response", "revocation")
     return {"status": r.status, "error": r.body.get("error") if isinstance(r.body, dict) else None, "revoked": [x.access_token for x in rows if x.revoked]}
+
+
+def flask_optional_cases():
+    """a Flask route guarded with require_oauth(..., optional=True): a request WITHOUT credentials passes anonymously; one that presents a revoked, expired or
+    unknown token is still refused"""
+    return [{"op": "flask_optional", "state": st, "required": rq} for st in ("none", "live", "revoked", "expired", "unknown", "refresh-string") for rq in (None, "a")]
+
+
+def impl_flask_optional(c):
+    import flask
+    import memserver as ms
+    from memserver import Token, CLOCK
+    from authlib.integrations.flask_oauth2 import ResourceProtector as FlaskRP, current_token
+    ms.install_clock(); CLOCK.now = 1_000_000
+    store = ms.Store()
+    t = Token(_store=store, access_token="tok", refresh_token="rtok", client_id="c1", user_id=1, scope="a b", expires_in=3600,
+              issued_at=CLOCK() - (7200 if c["state"] == "expired" else 10), token_type="Bearer")
+    if c["state"] == "revoked":
+        t.access_token_revoked_at = CLOCK()
+    store.tokens.append(t)
+    frp = FlaskRP()
+    frp.register_token_validator(ms.MemBearerValidator(store))
+    app = flask.Flask("c09-optional")
+    app.config["PROPAGATE_EXCEPTIONS"] = True
+    ran = {}
+
+    @app.route("/r")
+    @frp(c["required"], optional=True)
+    def view():
+        ran["token"] = current_token.access_token if current_token else None
+        return "ok"
+    hdr = {} if c["state"] == "none" else {"Authorization": "Bearer " + {"unknown": "nope", "refresh-string": "rtok"}.get(c["state"], "tok")}
+    resp = app.test_client().get("/r", headers=hdr)
+    return {"status": resp.status_code, "view_ran": "token" in ran, "current": ran.get("token")}
 
 
 def jwt9068_cases():
@@ -186,11 +226,13 @@ def impl(c):
         return impl_jwt9068(c)
     if c.get("op") == "django_revocation":
         return impl_django_revocation(c)
+    if c.get("op") == "flask_optional":
+        return impl_flask_optional(c)
     return H.replay_all(c)
 
 
 def model_line(c):
-    if c.get("op") in ("jwt9068", "django_revocation"):
+    if c.get("op") in ("jwt9068", "django_revocation", "flask_optional"):
         return None
     return {"cfg": c["cfg"], "ops": c["ops"]}
 
@@ -284,10 +326,21 @@ _hist_oracle = H.oracle_all(oracle_core)
 
 
 def oracle(c, out):
+    if c.get("op") == "flask_optional":
+        want = {"none": (True, None), "live": (True, "tok")}.get(c["state"], (False, None))
+        if (out["view_ran"], out["current"]) != want or (not want[0] and out["status"] != 401):
+            return [(f"Flask route with require_oauth({c['required']!r}, optional=True), request presenting a {c['state']} token: status {out['status']}, view body ran = {out['view_ran']} "
+                     f"with current_token {out['current']!r}; expected view ran = {want[0]}", {"kind": "dead-token-served" if out["view_ran"] else "live-token-refused", "fw": "flask-optional"})]
+        return []
     if c.get("op") == "django_revocation":
         supported_hint = c["hint"] in (None, "", "access_token", "refresh_token")
         want = ["AT1"] if c["ref"] in ("access", "refresh") and supported_hint else []
         v = []
+        if c.get("cred") == "bare-client-id":
+            if out["revoked"] or out["error"] != "invalid_client":
+                v.append((f"Django revocation endpoint (shipped CLIENT_AUTH_METHODS): a request naming the owner by client_id alone, without its secret, was answered {out['status']} {out['error']} "
+                          f"and marked {out['revoked']} revoked", {"kind": "foreign-revoke-accepted", "fw": "django", "ref": "bare-client-id"}))
+            return v
         if out["revoked"] != want:
             v.append((f"Django revocation endpoint: the owner revokes its {c['ref']} token string with token_type_hint={c['hint']!r}: rows marked revoked {out['revoked']}, expected {want} "
                       f"(answer {out['status']} {out['error']})", {"kind": "revoke-not-effective" if want else "foreign-revoke-accepted", "fw": "django", "ref": c["ref"]}))
@@ -322,11 +375,13 @@ def classify(c, out):
         return f"jwt9068/{c['who']}/" + ("live" if c["off"] <= 0 else "expired")
     if c.get("op") == "django_revocation":
         return f"django_revocation/{c['ref']}/{out.get('status')}"
+    if c.get("op") == "flask_optional":
+        return f"flask_optional/{c['state']}/{out.get('status')}"
     return "history/" + str(len(c["ops"]))
 
 
 def nontrivial(c, out):
-    if c.get("op") in ("jwt9068", "django_revocation"):
+    if c.get("op") in ("jwt9068", "django_revocation", "flask_optional"):
         return c
     return c["ops"]
 
